@@ -73,6 +73,10 @@ def WDt.applyPack (w : WDt) (p : Pack) : WDt × List HandlerCall × Option Strin
     match p.ops with
     | ⟨_, .error code⟩ :: _ => (w, [.errors [clientErrOfPushPull code]], none)
     | _ => (w, [.errors [300]], none)   -- error pack without ErrorOperation: reported as an abort of the server
+  else if p.subscribe && !(w.dstate = .dueToSubscribe || w.dstate = .dueToSubscribeCreate) then
+    -- isStaleSubscribeResponse: the (delayed or duplicated) answer to an earlier subscribe request of a
+    -- datatype that is subscribed already is ignored as a whole
+    (w, [], none)
   else
     -- subscribe pack: the first operation has to be the snapshot operation
     let sub : Option (Option WDt) :=
